@@ -25,6 +25,7 @@ void vs_quiet_begin(void);
 void vs_quiet_end(void);
 /* a handler to run on thread t at a '^t' choice */
 void vs_set_signal_handler(void (*fn)(int));
+extern unsigned long vs_create_fail_mask; /* bit k: the k-th pthread_create of the run fails with EAGAIN */
 extern int vs_tso;        /* 1: simulate store buffers (default), 0: SC */
 extern int vs_strict;     /* 1: RMW/fence/lock/futex enabled only on an empty own buffer (default) */
 extern int vs_self(void); /* scenario thread id of the caller, -1 outside */
